@@ -197,6 +197,8 @@ def run(ch, config, res):
                 problems.append("authzid=%r" % d.get("authzid"))
             if d.get("response") != exp:
                 problems.append("response=%r (expected %r for the caller's password)" % (d.get("response"), exp))
+            if d.get("realm", "") != cfg.realm:
+                problems.append("realm=%r (the server offered %r)" % (d.get("realm"), cfg.realm))
             if d.get("nonce") != cfg.nonce or d.get("nc") != "00000001" or d.get("qop", "auth") != "auth":
                 problems.append("nonce/nc/qop=%r/%r/%r" % (d.get("nonce"), d.get("nc"), d.get("qop")))
             if not d.get("digest-uri", "").startswith("sieve/"):
